@@ -2,6 +2,7 @@
 rearrangements (arity domains, name-set and key bookkeeping, grammar)."""
 import mir
 import guards
+import ops
 from ops import ERR
 from framework import RuleResult
 import c11
@@ -22,6 +23,10 @@ EXPECT = {
 PAIRS = [("ListCollectTooFew", "ListDestructureItemMismatch"), ("TooFewArgs", "ArgNumMismatch")]
 
 
+def _no_helpers(call):
+    return False
+
+
 def rule_R13_1(ctx):
     prog = ctx.prog
     r = c11.rule_guard_tables(ctx, "R13.1", EXPECT,
@@ -30,8 +35,28 @@ def rule_R13_1(ctx):
                               "a weaker or stronger count test binds "
                               "patterns to the wrong elements or rejects "
                               "valid destructurings/calls")
+    # (the count tests may consult a small accessor — `params.arity()` — so
+    # the remaining clauses read each function with such leaves inlined)
+    import inline
+
+    def leaf_sites(variant):
+        for f0 in prog.hand_fns():
+            if f0.from_expansion or not f0.module.startswith("eval") or inline.is_small_leaf(f0):
+                continue
+            fv = inline.view(prog, f0, pick=_no_helpers, leaves=True)
+            for bb, i, pl, kd, aops, sp in fv.aggregates(c11.ERR, variant):
+                yield fv, bb, kd, aops, sp
+
+    def same_term(f, a, b):
+        if a == b:
+            return True
+        if a and b and a[0] == "len" and b[0] == "len":
+            ca, cb = f.call_at(a[1]), f.call_at(b[1])
+            if ca is not None and cb is not None and ca.args and cb.args:
+                return f.canon_op(ca.args[0]) == f.canon_op(cb.args[0])
+        return False
     # TooFewArgs.minimum is (number of parameters) - 1
-    for f, bb, kd, aops, sp in c11.err_sites(prog, "TooFewArgs"):
+    for f, bb, kd, aops, sp in leaf_sites("TooFewArgs"):
         m = guards.field_terms(f, kd, aops).get("minimum")
         t = m
         if m and m[0] == "var":
@@ -39,11 +64,11 @@ def rule_R13_1(ctx):
             if len(ds) == 1 and ds[0][2] == "rv" and ds[0][3][0] == "use":
                 t = guards.var_of(f, ds[0][3][1])
         need = set()
-        for f2, b2, kd2, ao2, sp2 in c11.err_sites(prog, "ArgNumMismatch"):
+        for f2, b2, kd2, ao2, sp2 in leaf_sites("ArgNumMismatch"):
             if f2 is f:
                 need.add(guards.field_terms(f2, kd2, ao2).get("need"))
         r.inst("%s: minimum = %s" % (f.path, guards.term_str(t) if t else None))
-        if t and t[0] == "sub" and t[2] == ("const", 1) and (t[1] in need or not need):
+        if t and t[0] == "sub" and t[2] == ("const", 1) and (any(same_term(f, t[1], n_) for n_ in need) or not need):
             r.ok()
         else:
             r.fail("%s | minimum is not params-1" % f.path,
@@ -52,8 +77,8 @@ def rule_R13_1(ctx):
                    where=mir.span_loc(sp))
     # the collect flag selects between the two tests
     for a, b in PAIRS:
-        sa = list(c11.err_sites(prog, a))
-        sb = list(c11.err_sites(prog, b))
+        sa = list(leaf_sites(a))
+        sb = list(leaf_sites(b))
         for (f, bba, *_), (f2, bbb, *_) in zip(sa, sb):
             if f is not f2:
                 continue
@@ -300,7 +325,8 @@ def rule_R13_5(ctx):
         if not f.module.startswith(_bmod(prog)) or f.is_closure or f.from_expansion:
             continue
         gets = [c for c in f.calls() if "BTreeMap" in (c.res_full or "") and (c.res or "").split("::")[-1] == "get"]
-        errs = [1 for bb, i, pl, kd, ao, sp in f.aggregates(ERR, "PropNotFound")]
+        errs = [1 for bb, i, pl, kd, ao, sp in f.aggregates(ERR, "PropNotFound")] \
+            or [1 for h in prog.closures_of(f.path) if (ERR, "PropNotFound") in ops.constructs(prog, h)]
         if not gets or not errs:
             continue
         n += 1
